@@ -89,6 +89,7 @@ class Injector:
         self.site = None
         self.inflight = None
         self._tracked: dict[str, bool] = {}
+        self._with_lines: dict = {}
         self._armed = False
         self._extra = (os.path.realpath(_ast.__file__), os.path.realpath(_random.__file__))
 
@@ -115,10 +116,28 @@ class Injector:
             self.lines += 1
             if self.mode == "line":
                 if self.lines == self.k:
-                    self._fire(frame)
-            elif self._armed:
+                    self._armed = True
+            if self._armed:
+                # CPython never delivers an asynchronous exception between __enter__ and the body of a
+                # `with` statement, nor between the end of the body and the call of __exit__ (no
+                # eval-breaker check there, bpo-29988); a line event on the `with` line is such a
+                # point (entry, and the clean-up which is attributed to the `with` line).  Firing there
+                # would be a crash point no real execution has: defer to the next line event.
+                if self._is_with_line(code, frame.f_lineno):
+                    return self.trace
                 self._fire(frame)
         return self.trace
+
+    def _is_with_line(self, code, lineno) -> bool:
+        key = (code.co_filename, lineno)
+        r = self._with_lines.get(key)
+        if r is None:
+            import linecache
+
+            text = linecache.getline(code.co_filename, lineno).lstrip()
+            r = text.startswith(("with ", "with(", "async with ", "async with("))
+            self._with_lines[key] = r
+        return r
 
     def _fire(self, frame):
         self.fired = True
